@@ -150,6 +150,30 @@ type P6v2 struct {
 
 func (P6v2) TableName() string { return "p6" }
 
+// ---- P7: unique together with indexes on the same column ----
+type P7 struct {
+	ID  uint   `gorm:"primaryKey"`
+	Tok string `gorm:"size:20;unique;uniqueIndex"`
+	A   string `gorm:"size:20;unique;uniqueIndex:idx_p7_ab"`
+	B   int64  `gorm:"uniqueIndex:idx_p7_ab"`
+	C   string `gorm:"size:20;unique;index"`
+	D   string `gorm:"size:20;unique;index:idx_p7_d,unique"`
+	E   string `gorm:"size:20;uniqueIndex"`
+}
+type P7v2 struct {
+	ID  uint   `gorm:"primaryKey"`
+	Tok string `gorm:"size:20;unique;uniqueIndex"`
+	A   string `gorm:"size:20;unique;uniqueIndex:idx_p7_ab"`
+	B   int64  `gorm:"uniqueIndex:idx_p7_ab"`
+	C   string `gorm:"size:20;unique;index"`
+	D   string `gorm:"size:20;unique;index:idx_p7_d,unique"`
+	E   string `gorm:"size:20;uniqueIndex"`
+	F   string `gorm:"size:20;uniqueIndex:idx_p7_f"`
+	G   int64  `gorm:"index"`
+}
+
+func (P7v2) TableName() string { return "p7" }
+
 // ---- reorder family: chain and diamond of belongs-to dependencies ----
 type RA struct {
 	ID uint `gorm:"primaryKey"`
